@@ -175,7 +175,11 @@ def cmd_sensitivity(argv):
                 p = subprocess.run(cmd, capture_output=True, text=True, env=env, timeout=7200)
                 viol = [l for l in p.stdout.splitlines() if l.startswith("VIOLATION")]
                 summ = [l for l in p.stdout.splitlines() if l.startswith(prop + " ")]
-                rows.append((mid, prop, "CAUGHT" if p.returncode == 1 and viol else f"MISSED(rc={p.returncode})", (summ[-1] if summ else "")[:160] + f" [{time.monotonic() - t0:.0f}s]"))
+                if meta.get("expect") == "pass":
+                    outcome = "CAUGHT(negative control stayed silent)" if p.returncode == 0 else f"MISSED(negative control raised an alarm, rc={p.returncode})"
+                else:
+                    outcome = "CAUGHT" if p.returncode == 1 and viol else f"MISSED(rc={p.returncode})"
+                rows.append((mid, prop, outcome, (summ[-1] if summ else "")[:160] + f" [{time.monotonic() - t0:.0f}s]"))
                 print(rows[-1], flush=True)
     finally:
         subprocess.run(["git", "-C", "/repo", "worktree", "remove", "--force", scratch], capture_output=True)
